@@ -5,7 +5,7 @@
    after fixes/C14-*.patch).  Palettes and rune tables: Gen/GenPalette.v (translator). *)
 From Coq Require Import List NArith ZArith QArith Bool Lia.
 From RareV Require Import Gen.GenPalette Base.Num Base.Res Model.Scale Model.Render Proofs.ScaleProof
-  Proofs.RenderBars Proofs.RenderTable Proofs.RenderTotal.
+  Proofs.RenderBars Proofs.RenderTable Proofs.RenderTotal Proofs.ScaleRound Corr.C14Case Proofs.RenderCheck.
 Import ListNotations.
 Local Open Scope Q_scope.
 
@@ -255,6 +255,115 @@ Example C14_table_example :
   snd (tw_run false 2 3 [TRow 0 [[97]; [98]]; TRow 1 [[97; 97; 97]; [99]]])%N
   = [[97; 32; 32; 32; 98; 32]; [97; 97; 97; 32; 99; 32]]%N.
 Proof. vm_compute. reflexivity. Qed.
-(* the rounding used by the correspondence fixes 0 and 1 *)
-Example C14_round53_fix : round53 0 == 0 /\ round53 1 == 1 /\ round53 (inject_Z (2 ^ 53)) == inject_Z (2 ^ 53).
-Proof. repeat split; vm_compute; reflexivity. Qed.
+(* ------------------------------------------------------------------------------------------ *)
+(* The rounding instance: round53 (round-to-nearest-even to 53 significant bits, the function the
+   bit-exact correspondence evaluates for every float64 operation) satisfies all the abstract
+   rounding hypotheses of the laws above — monotone, fixes 0, 1 and every integer up to 2^53,
+   keeps positives positive.  Proved directly on Q (Proofs/ScaleRound.v): the scaled significand
+   always lies in [2^52, 2^53), the exponent is monotone in the value, round-half-even is monotone
+   on the significand. *)
+Theorem C14_round53_ok :
+  (forall x y, x <= y -> round53 x <= round53 y) /\ round53 0 == 0 /\ round53 1 == 1 /\
+  (forall x, 0 < x -> 0 < round53 x) /\ (forall k, small_int k -> round53 (inject_Z k) == inject_Z k).
+Proof. exact round53_ok. Qed.
+Print Assumptions C14_round53_ok.
+
+(* hence the laws hold of the model exactly as the correspondence evaluates it (float64
+   arithmetic, no idealisation), for every monotone mapper — in particular the linear scaler,
+   whose mapper is the int64 -> float64 conversion *)
+Theorem C14_scale_float : forall m, (forall a b, (a <= b)%Z -> m a <= m b) -> forall v v' mn mx,
+  0 <= scale m round53 v mn mx <= 1 /\ ((v <= v')%Z -> scale m round53 v mn mx <= scale m round53 v' mn mx).
+Proof.
+  intros m Hm v v' mn mx. destruct round53_ok as [R1 [R2 [R3 [R4 R5]]]]. split.
+  - apply C14_scale_unit; assumption.
+  - apply C14_scale_mono; assumption.
+Qed.
+Theorem C14_scale_float_linear : forall v v' mn mx,
+  let m := fun x => round53 (inject_Z x) in
+  0 <= scale m round53 v mn mx <= 1 /\ ((v <= v')%Z -> scale m round53 v mn mx <= scale m round53 v' mn mx).
+Proof. intros. apply C14_scale_float. exact lin53_mono. Qed.
+Theorem C14_render_total_float : forall m, (forall a b, (a <= b)%Z -> m a <= m b) -> forall col uni keys fmt,
+  (forall rlim clim h tm a, exists st, heat_write_table col uni m round53 keys fmt rlim clim h tm a = Some (Ok st)) /\
+  (forall rlim clim st a, exists st', spark_write_table col uni m round53 fmt rlim clim st a = Ok st') /\
+  (forall sb ops st, exists st', histo_run col uni m round53 fmt sb st ops = Ok st') /\
+  (forall b tm ks, exists st', bg_set_keys col uni b tm ks = Ok st') /\
+  (forall size stacked ops st, exists st', bg_run col uni m round53 fmt size stacked st ops = Ok st').
+Proof.
+  intros m Hm. destruct round53_ok as [R1 [R2 [R3 [R4 R5]]]]. apply C14_render_total; assumption.
+Qed.
+Print Assumptions C14_scale_float.
+Print Assumptions C14_scale_float_linear.
+Print Assumptions C14_render_total_float.
+
+(* ------------------------------------------------------------------------------------------ *)
+(* Soundness of the boolean form that the driver evaluates on the implementation's own output
+   (Corr/C14Case.v check): whenever it accepts an observed output, the corresponding clause of
+   the property holds OF THAT OUTPUT.  (IHisto / IBarG: the check is "completed".) *)
+Theorem C14_check_sound :
+  (* scaler: observed magnitudes in [0,1], ascending along the ascending values *)
+  (forall mp mn mx vs l, check (IScale mp mn mx vs) (OQ l) = true ->
+     length l = length vs /\ Forall (fun q => 0 <= q <= 1) l /\
+     (forall k a b, nth_error l k = Some a -> nth_error l (S k) = Some b -> a <= b)) /\
+  (* buckets / lengths / scaled bars for magnitudes in [0,1]: in range, ascending *)
+  (forall n us l, check (IBucket n us) (OZ l) = true ->
+     Forall2 (fun u z => 0 <= u <= 1 -> (0 <= z <= n - 1)%Z) us l) /\
+  (forall n us l, check (ILength n us) (OZ l) = true ->
+     Forall2 (fun u z => 0 <= u <= 1 -> (0 <= z <= n)%Z) us l /\
+     (Forall (fun u => 0 <= u <= 1) us ->
+      forall k a b, nth_error l k = Some a -> nth_error l (S k) = Some b -> (a <= b)%Z)) /\
+  (forall uni len us l, check (IBarW uni len us) (OS l) = true ->
+     Forall2 (fun u s => 0 <= u <= 1 -> (lenZ s <= len)%Z) us l /\
+     (Forall (fun u => 0 <= u <= 1) us ->
+      forall k a b, nth_error l k = Some a -> nth_error l (S k) = Some b -> (length a <= length b)%nat)) /\
+  (* stacked bar: within the width, whatever the values and the maximum *)
+  (forall col uni maxVal maxLen vals s, check (IStack col uni maxVal maxLen vals) (OS [s]) = true ->
+     (0 <= maxLen)%Z -> (str_len col s <= maxLen)%Z) /\
+  (* table: every stored row is laid out with the widths W and column j starts at offset W j *)
+  (forall col maxc maxr ops lines, check (ITable col maxc maxr ops) (OS lines) = true ->
+     let W := spec_widths col maxc maxr ops in
+     forall i cells, nth_error (spec_rows maxr ops) i = Some (Some cells) ->
+       nth i lines [] = render_row col W cells /\
+       (Forall (closed col) cells -> forall j, (j <= Nat.min maxc (length cells))%nat ->
+          exists pre rest, nth i lines [] = pre ++ rest /\ str_len col pre = offset W j /\
+                           rest = render_row col (skipn j W) (skipn j cells))) /\
+  (* heatmap: one cell per displayed column in every displayed row; the notes *)
+  (forall c rlim clim a lines, heat_chk c rlim clim a lines = true ->
+     let cc := Nat.min (length (a_cols a)) clim in
+     let rc := Nat.min (length (a_rows a)) rlim in
+     (forall k r, nth_error (firstn rc (a_rows a)) k = Some r ->
+        exists pad cells, nth (2 + k) lines [] = name_cell c r ++ pad ++ cells /\
+          pad <> [] /\ Forall (fun x => x = SP) pad /\ length cells = cc /\
+          match cells with x :: _ => x <> SP | [] => True end) /\
+     ((rc < length (a_rows a))%nat ->
+        nth (2 + rc) lines [] = more_txt (Z.of_nat (length (a_rows a) - rc))) /\
+     ((cc < length (a_cols a))%nat ->
+        exists h, nth 1 lines [] = h ++ SP :: more_txt (Z.of_nat (length (a_cols a) - cc)))) /\
+  (* sparkline: per row one sparkline rune per displayed column beyond those of the key and the
+     First/Last numbers; the note *)
+  (forall c rlim clim a lines, spark_chk c rlim clim a lines = true ->
+     let k := Nat.min clim (length (a_cols a)) in
+     let rc := Nat.min (length (a_rows a)) rlim in
+     (forall j r, nth_error (firstn rc (a_rows a)) j = Some r ->
+        let vals := last_cols k (r_vals r) in
+        count_in (spark_alpha c) (nth (S j) lines []) =
+          (count_in (spark_alpha c) (name_cell c r) +
+           count_in (spark_alpha c) (match vals with [] => [] | v :: _ => fmt_of (c_fk c) v end) +
+           count_in (spark_alpha c) (match vals with [] => [] | _ => fmt_of (c_fk c) (last vals 0%Z) end) + k)%nat) /\
+     ((rc < length (a_rows a))%nat -> In (more_txt (Z.of_nat (length (a_rows a) - rc))) lines)) /\
+  (* data table: the displayed numbers are the aggregated numbers under the formatter *)
+  (forall c ncols nrows rt a lines, data_chk c ncols nrows rt a lines = true ->
+     forall j r, nth_error (firstn nrows (a_rows a)) j = Some r ->
+       words [] (nth (S j) lines []) = data_row_words c (Nat.min ncols (length (a_cols a))) rt r).
+Proof.
+  split. exact check_scale_sound. split. exact check_bucket_sound. split. exact check_length_sound.
+  split. exact check_barw_sound. split. exact check_stack_sound. split. exact check_table_sound.
+  split. exact check_heat_sound. split. exact check_spark_sound. exact check_data_sound.
+Qed.
+Print Assumptions C14_check_sound.
+Theorem C14_check_cells_sound :
+  (forall col uni us l, check (IHeatC col uni us) (OS l) = true ->
+     length l = length us /\ Forall (fun s => str_len col s = 1%Z) l) /\
+  (forall uni us l, check (ISparkC uni us) (OS l) = true ->
+     length l = length us /\ Forall (fun s => lenZ s = 1%Z) l).
+Proof. exact check_cells_sound. Qed.
+Print Assumptions C14_check_cells_sound.
